@@ -31,6 +31,9 @@ def portion_text(q, style):
                 s = str(sc.numerator).rjust(digits + 1, "0")
                 return "%s.%s%%" % (s[:-digits], s[-digits:])
         return "%d/%d" % (q.numerator, q.denominator)
+    if style == 3:
+        # leading zeros on both sides (decimal whatever they look like): 01/010 is one tenth
+        return "0%d/0%d" % (q.numerator, q.denominator) if q.denominator % 2 else "%d/00%d" % (q.numerator, q.denominator)
     return "%d / %d" % (q.numerator * 3, q.denominator * 3)
 
 
@@ -113,7 +116,7 @@ def mk_nested_case(i, rng):
             else:
                 t, node = leaf()
             is_rem = (use_rem and j == k - 1) or j == extra_rem
-            pt = "remaining" if is_rem else portion_text(q, rng.randrange(3))
+            pt = "remaining" if is_rem else portion_text(q, rng.randrange(4))
             qq = None if is_rem else q
             if side == "src":
                 texts.append("%s from %s" % (pt, t))
@@ -332,7 +335,7 @@ def run(chk):
         n = rng.choice([rng.randrange(0, 1000), 2 ** 64 + rng.randrange(0, 10 ** 6), 10 ** 30 + rng.randrange(0, 10 ** 9),
                         rng.choice([2 ** 62, 2 ** 62 + 1, 3 * 2 ** 61 + 1, 4 * 10 ** 18, 10 ** 19 // 3, 2 ** 63 - 1, 2 ** 61 + 7, 3 * 10 ** 16])])
         c, g = mk_case(len(cases), n, qs, qs[-1] is None, rng.choice(["dst", "src"]),
-                       var_idx=rng.choice([None, 0, k - 1]), style=rng.randrange(3))
+                       var_idx=rng.choice([None, 0, k - 1]), style=rng.randrange(4))
         cases.append(c)
         gens.append(g)
 
